@@ -180,3 +180,10 @@ CASES += [
     {"name": "requested type handed to the container by position", "kind": "twin", "edits": [
         (_TC19, "            cont = TwoDSpectrumContainer(axis, dtype=stype)\n", "            cont = TwoDSpectrumContainer(axis, stype)\n", 1)]},
 ]
+
+CASES += [
+    {"name": "spectrum stored through numpy.asarray", "kind": "twin", "edits": [
+        (_TW19, _SD19, "            (self.yaxis.length == data.shape[1])):\n            self.data = numpy.asarray(data)\n", 1)]},
+    {"name": "spectrum stored as its real part, unconditionally", "kind": "mutant", "rule": "C19-O", "edits": [
+        (_TW19, _SD19, "            (self.yaxis.length == data.shape[1])):\n            self.data = data.real\n", 1)]},
+]
